@@ -1109,8 +1109,7 @@ func (lg *ledger) term(v ssa.Value) (string, int64) {
 }
 
 // boundFacts collects difference constraints known at block b.
-func (lg *ledger) boundFacts(b *ssa.BasicBlock) []diffC {
-	var out []diffC
+func (lg *ledger) boundFacts(b *ssa.BasicBlock) (out []diffC) {
 	add := func(x ssa.Value, op token.Token, y ssa.Value) {
 		// (a - b) op c  with a, b variables: a difference constraint between a and b
 		if bo, ok := x.(*ssa.BinOp); ok && bo.Op == token.SUB {
@@ -1154,6 +1153,7 @@ func (lg *ledger) boundFacts(b *ssa.BasicBlock) []diffC {
 			out = append(out, diffC{xb, yb, yo - xo}, diffC{yb, xb, xo - yo})
 		}
 	}
+	var eqFalse [][2]ssa.Value
 	neg := map[token.Token]token.Token{token.LSS: token.GEQ, token.LEQ: token.GTR, token.GTR: token.LEQ, token.GEQ: token.LSS, token.NEQ: token.EQL}
 	for _, f := range dominatingFacts(b) {
 		cond, truth := f.cond, f.truth
@@ -1175,12 +1175,37 @@ func (lg *ledger) boundFacts(b *ssa.BasicBlock) []diffC {
 		if !truth {
 			n, ok := neg[op]
 			if !ok {
+				// not (x == c): together with x >= c (lengths are >= 0) this gives x >= c+1
+				if op == token.EQL {
+					eqFalse = append(eqFalse, [2]ssa.Value{bo.X, bo.Y})
+				}
 				continue
 			}
 			op = n
 		}
+		if op == token.NEQ {
+			eqFalse = append(eqFalse, [2]ssa.Value{bo.X, bo.Y})
+			continue
+		}
 		add(bo.X, op, bo.Y)
 	}
+	defer func() {
+		// x != c with x >= c known  =>  x >= c+1 (applied after the structural facts were added)
+		for _, pr := range eqFalse {
+			xb, xo := lg.term(pr[0])
+			yb, yo := lg.term(pr[1])
+			if yb != "0" {
+				xb, xo, yb, yo = yb, yo, xb, xo
+			}
+			if yb != "0" {
+				continue
+			}
+			c := yo - xo // xb != c
+			if entails(out, "0", xb, -c) { // xb >= c
+				out = append(out, diffC{"0", xb, -(c + 1)})
+			}
+		}
+	}()
 	// structural facts
 	for phi, lb := range lg.nonNegPhis() {
 		out = append(out, diffC{"0", lg.key(phi), -lb}) // phi >= lb
